@@ -22,7 +22,7 @@ def run(ctx):
     # locals / parameters the rules below refer to by name (a rename makes the analysis 'broken', never a violation)
     ctx.anchor(ctx.fn1('Oomd::BaseKillPlugin::resumeTryingToKillSomething'), 'candidate', 'nextBestOptionStack')
     ctx.anchor(ctx.fn1('Oomd::BaseKillPlugin::resumeFromPrekillHook'), 'intendedCandidate', 'intendedVictim', 'sc', 'id')
-    ctx.anchor(ctx.fn1('Oomd::Engine::Engine::firePrekillHook'), 'it', 'cgroup_ctx')
+    ctx.anchor(ctx.fn1('Oomd::Engine::Engine::firePrekillHook'), 'cgroup_ctx')
     ctx.anchor(ctx.fn1('Oomd::Engine::Engine::addDropInConfig'), 'tag')
     ctx.anchor(ctx.fn1('Oomd::Engine::PrekillHook::canRunOnCgroup'), 'pattern')
     ctx.anchor(ctx.fn1('Oomd::BaseKillPlugin::pastPrekillHookTimeout'), 'ctx')
@@ -244,7 +244,8 @@ def run(ctx):
         ctx.violation("firePrekillHook:loop", "anchor", fph.loc(), "expected one loop over the hook list")
     else:
         hdr = loop_header(fph, lh[0])
-        ctx.check("prekill_hooks_in_reverse_order_.rbegin()" in hdr and ".rend()" in hdr and "++it" in hdr,
+        wk = loop_walk(fph, lh[0])
+        ctx.check(wk is not None and wk["dir"] == "backward" and wk["container"] == "this->prekill_hooks_in_reverse_order_",
                   "firePrekillHook:reverse-traversal", "loop-shape", fph.loc(lh[0]["stmt"]),
                   "the reverse-ordered list is walked from its back", "loop header is " + hdr)
         fl = Flow(P, fph, cg=ctx.cg)
@@ -264,7 +265,21 @@ def run(ctx):
             a = [fph.text(x) for x in fph.nodes[i]["args"]]
             ctx.check(a[0] == "cgroup_ctx" and "getActionContext()" in a[1], "fire-args", "provenance", fph.loc(i),
                       "hook receives the victim and the action context", "hook receives " + str(a))
-            ctx.check("it->" in fph.text(fph.nodes[i]["recv"]) and "it->" in [k for k, p in g if "canRunOnCgroup" in k][0],
+            # the hook fired is the one that was tested, and it is the current element's hook (directly or through a local alias)
+            fired = re.sub(r"(->|\.)$", "", fph.text(fph.nodes[i]["recv"]))
+            tested = [re.sub(r"(->|\.)canRunOnCgroup\(.*$", "", k) for k, p in g if "canRunOnCgroup(" in k and p is True]
+
+            def of_element(t):
+                if wk is None:
+                    return False
+                if re.match(r"^\w+$", t):
+                    init_, v_ = local_init(fph, t, must=False)
+                    if v_ is None or init_ is None or init_ < 0 or local_writes(fph, t, must=False):
+                        return False
+                    t = fph.text(init_)
+                m_ = re.match(wk["elem"], t)
+                return m_ is not None and re.match(r"^(\.|->)?hook$", t[m_.end():]) is not None
+            ctx.check(bool(tested) and all(t_ == fired for t_ in tested) and of_element(fired),
                       "fire-the-tested-hook", "provenance", fph.loc(i), "the hook fired is the one tested", "fires another hook than the one tested")
     ohk = ctx.fn1("Oomd::OomdContext::firePrekillHook")
     calls = [i for i in ohk.calls() if ohk.nodes[i].get("op") == "()" and "prekill_hook_handler_" in ohk.text(ohk.nodes[i].get("recv", -1))]
@@ -286,8 +301,20 @@ def run(ctx):
             lp = [l for l in loops(f) if f.pos_of(pushes[0])[0] in l["body"]]
             okq = len(lp) == 1
             if okq:
-                hdr = loop_header(f, lp[0])
-                okq = ".rbegin()" in hdr and ".rend()" in hdr and "++it" in hdr
+                # the source list is walked from its back, and what is appended is the current element (moved)
+                wk_ = loop_walk(f, lp[0])
+                okq = wk_ is not None and wk_["dir"] == "backward"
+                if okq:
+                    Xq = Expander(P, f)
+                    src_ = [x for x in f.walk(f.nodes[pushes[0]]["args"][0]) if f.nodes[x]["k"] == "call" and f.nodes[x].get("cname") == "move" and f.nodes[x].get("args")]
+                    vals = [f.text(f.nodes[x]["args"][0]) for x in src_]
+                    def cur(t):
+                        if re.match(r"^\w+$", t):
+                            init_, v_ = local_init(f, t, must=False)
+                            if v_ is not None and init_ is not None and init_ >= 0:
+                                t = f.text(init_)
+                        return re.match(wk_["elem"], t) is not None
+                    okq = bool(vals) and all(cur(t_) for t_ in vals)
         ctx.check(okq, "hooks-appended-in-reverse:" + short(f), "loop-shape", f.loc(),
                   "hooks are appended by reverse iteration (so they are tried in configuration order, later additions first)",
                   "hook list is not filled by reverse iteration + emplace_back")
@@ -315,6 +342,17 @@ def run(ctx):
             nm = n.get("cname") or ""
             if nm in STABLE or n.get("op") in ("=",):
                 continue
+            if nm in ("operator[]", "at", "front", "back") or n.get("op") == "[]":
+                # element access: order preserving unless the element itself is replaced (assigned, swapped, moved from)
+                par = f.parent.get(i)
+                while par is not None and f.nodes[par]["k"] in ("cast", "paren", "other"):
+                    par = f.parent.get(par)
+                pn = f.nodes[par] if par is not None else None
+                replaced = pn is not None and ((pn["k"] == "bin" and pn.get("op") == "=" and i in list(f.walk(pn["l"]))) or
+                                               (pn["k"] == "call" and pn.get("op") == "=" and "recv" in pn and i in list(f.walk(pn["recv"]))) or
+                                               (pn["k"] == "call" and pn.get("cname") in ("swap", "iter_swap", "exchange", "move")))
+                if not replaced:
+                    continue
             ctx.violation("hook-order-preserved:%s@%s" % (short(f), nm), "who-may-write (order-preserving operations)", f.loc(i),
                           "%s is applied to the prekill hook list: it is not an order-preserving operation, so the surviving hooks can be tried in a "
                           "different priority order (drop-in hooks newest first, then base hooks in config order)" % nm)
